@@ -30,7 +30,7 @@ def attribute(run, line, verdict):
             revived = {e["u"] for e in upto if e.get("e") == "Revive"}
             return "C12" if ev.get("u") in revived and k == "Start" else "C01"
         if k in ("JoinRet", "FreeRet", "JoinCall", "FreeCall"):
-            return "C12" if ev.get("u") in cancelled else "C03"
+            return "C12+C03" if ev.get("u") in cancelled else "C03"   # a cancelled target must still release its joiner
         if k in ("XJoinRet", "FinalizeRet"):
             us = ev.get("us", [])
             lost = [u for u in us if u not in started and u not in cancelled]
@@ -64,7 +64,7 @@ def attribute(run, line, verdict):
     if scn == "xjoin":
         return "C06"
     if scn == "cancelmix":
-        return "C12"
+        return "C12+C03"          # cancellation while joining / being joined
     if scn == "cancelnew":
         return "C12+C03"          # a cancelled target must release its joiner: clause of both properties
     pend_join = None
@@ -94,7 +94,7 @@ def attribute(run, line, verdict):
     if pend_join and pend_join.get("u") in finished:
         return "C03"              # target terminated, joiner not released
     if pend_join and pend_join.get("u") in cancelled:
-        return "C12"
+        return "C12+C03"
     if never_started:
         return "C01"              # a created unit is never run
     if len(xj) > len(xr) and not (created - finished - cancelled):
